@@ -248,6 +248,13 @@ UNITS = {
                                     "fn:FileUploadInitiateController::process"]),
             ("src/app/controller/form/get_method/mod.rs", ["struct:FormGetMethodController", "fn:FormGetMethodController::is_matching",
                                     "fn:FormGetMethodController::process"]),
+            ("src/ext/string_ext/mod.rs", ["struct:StringExt", "fn:StringExt::filter_ascii_control_characters:assume"]),
+            ("src/body/multipart_form_data/mod.rs", ["struct:FormMultipartData", "struct:Part", "fn:Part::get_header:assume", "fn:FormMultipartData::parse:assume",
+                                                     "fn:FormMultipartData::extract_boundary"]),
+            ("src/header/content_disposition/mod.rs", ["struct:ContentDisposition", "struct:DispositionType", "const:DISPOSITION_TYPE", "fn:ContentDisposition::parse:assume"]),
+            ("src/app/controller/form/multipart_enctype_post_method/mod.rs", ["struct:FormMultipartEnctypePostMethodController",
+                                    "consts:FormMultipartEnctypePostMethodController",
+                                    "fn:FormMultipartEnctypePostMethodController::is_matching", "fn:FormMultipartEnctypePostMethodController::process"]),
             ("src/app/controller/form/url_encoded_enctype_post_method/mod.rs", ["struct:FormUrlEncodedEnctypePostMethodController",
                                     "consts:FormUrlEncodedEnctypePostMethodController",
                                     "fn:FormUrlEncodedEnctypePostMethodController::is_matching", "fn:FormUrlEncodedEnctypePostMethodController::process"]),
@@ -287,6 +294,7 @@ UNITS = {
             ("src/body/multipart_form_data/mod.rs", ["struct:FormMultipartData", "struct:Part", "fn:FormMultipartData::is_delimiter", "fn:FormMultipartData::parse",
                                                      "fn:FormMultipartData::parse_form_part_recursively", "fn:FormMultipartData::extract_boundary",
                                                      "fn:FormMultipartData::generate_part", "fn:FormMultipartData::generate"]),
+            ("src/header/content_disposition/mod.rs", ["struct:ContentDisposition", "struct:DispositionType", "const:DISPOSITION_TYPE", "fn:ContentDisposition::parse"]),
         ],
         "contracts": ["contracts/request.vc", "contracts/multipart.vc"],
     },
@@ -376,7 +384,7 @@ PROPS = {
             "Range::parse_multipart_body_with_boundary / termination + no overflow / decreases rem(old(cursor)).len(); loop: rem(cursor).len() + (is_not_boundary ? 1 : 0)",
             "Base64::decode / every input returns Ok or Err (functional contract proved)",
         ],
-        "assumptions": ["entry points NOT yet under contract (listed so that the claim is not read as complete): JSON object/array parsers, ContentDisposition::parse, config-file reader, UrlPath::extract_parts_from_pattern"],
+        "assumptions": ["entry points NOT yet under contract (listed so that the claim is not read as complete): JSON object/array parsers, config-file reader, UrlPath::extract_parts_from_pattern"],
     },
     "C01": {
         "units": ["static", "controllers"],
